@@ -419,3 +419,76 @@ def c04k(ctx):
                            'bbox / size before the URL is built' % (fn.short, ', '.join(sorted(set(bad)))[:120]))
     if n < 4:
         raise Undecided('only %d functions using a request template found' % n)
+
+
+@rule('C04.l', floor=3)
+def c04l(ctx):
+    """the picture of a meta tile and the pattern it is cut with describe the same block of tiles: a meta tile is the full
+    meta_size block from its main tile on, also where the block reaches over the border of the grid (the tiles beyond it are `None`
+    placeholders in the pattern).  Both sides use the unclamped block: the far corner of `unbuffered_meta_bbox` is
+    main tile + meta_size - 1, and `meta_tile` lays the pattern out with `self._meta_size(level)`.  (A bbox clamped to the grid with
+    an unclamped pattern -- or the reverse -- cuts the existing rows of a border meta tile from the wrong place of the picture)"""
+    ub = ctx.fn(G + ':MetaGrid.unbuffered_meta_bbox')
+    calls = [x for x in ub.walk() if is_call(x, 'self.grid._tiles_bbox') and x.args]
+    if not calls:
+        raise Undecided('unbuffered_meta_bbox: _tiles_bbox call not found')
+    ok = True
+    got = ''
+    for x in calls:
+        lst = ub.canon.expr(x.args[0])
+        elts = lst.elts if isinstance(lst, (ast.List, ast.Tuple)) else []
+        far = elts[-1] if len(elts) == 2 else None
+        fe = far.elts if isinstance(far, ast.Tuple) and len(far.elts) == 3 else None
+        if fe is None:
+            ok = False
+            continue
+        got = unparse(far)
+        for i in (0, 1):
+            t = unparse(ub.canon.expr(fe[i]) if not isinstance(fe[i], ast.BinOp) else fe[i]).replace(' ', '')
+            ok = ok and not contains(fe[i], lambda y: is_call(y, 'min', 'max')) and t in (
+                'tile_coord[%d]+self._meta_size(tile_coord[2])[%d]-1' % (i, i), '%s+meta_size[%d]-1' % ('xy'[i], i),
+                'tile_coord[%d]+meta_size[%d]-1' % (i, i)) or (ok and _far_corner_ok(ub, fe[i], i))
+    ctx.check(ok, 'MetaGrid.unbuffered_meta_bbox:full-block', 'the far corner tile is main tile + meta_size - 1 (not clamped to the grid)', ub,
+              fail='unbuffered_meta_bbox does not span the full meta_size block (%s): the picture and the cutting pattern of a border meta tile '
+                   'disagree' % got[:80])
+    mt = ctx.fn(G + ':MetaGrid.meta_tile')
+    pats = [x for x in mt.walk() if is_call(x, 'self._tiles_pattern')]
+    ok = bool(pats)
+    for x in pats:
+        gs = keyword(x, 'grid_size')
+        ok = ok and gs is not None and is_call(mt.canon.expr(gs), 'self._meta_size')
+    ctx.check(ok, 'MetaGrid.meta_tile:pattern-of-the-full-block', 'the tile pattern is laid out with grid_size = self._meta_size(level)', mt,
+              fail='meta_tile lays the tile pattern out with a grid size other than the meta size of the level: rows of a border meta tile are cut '
+                   'from the wrong place')
+    mts = [x for x in mt.walk() if is_call(x, 'MetaTile')]
+    ok = bool(mts) and all(keyword(x, 'grid_size', 3) is not None and is_call(mt.canon.expr(keyword(x, 'grid_size', 3)), 'self._meta_size') for x in mts)
+    ctx.check(ok, 'MetaGrid.meta_tile:grid-size-handed-on', 'the MetaTile carries the same grid size', mt)
+
+
+def _far_corner_ok(fn, e, i):
+    """closed form `<main tile component i> + <meta size component i> - 1` in any grouping"""
+    c = fn.canon.expr(e)
+    t = unparse(c).replace(' ', '')
+    if 'min(' in t or 'max(' in t:
+        return False
+    base = ('tile_coord[%d]' % i, 'xyz'[i])
+    return any(t in ('%s+self._meta_size(tile_coord[2])[%d]-1' % (b, i), '%s+self._meta_size(z)[%d]-1' % (b, i)) for b in base)
+
+
+@rule('C04.m', floor=3)
+def c04m(ctx):
+    """a tile is the same whichever way it was made -- also in what is done to it before it is stored: the pre-store filters
+    (watermark ...) are applied to a created tile *before* the cache stores it, on the single tile path, the meta tile path and the bulk
+    path alike (apply_tile_filter skips tiles that are already stored: applied after the store it does nothing, and the bulk tiles are
+    stored and served without the filter while the same tile fetched alone has it)"""
+    for m in ('_create_single_tile', '_create_meta_tile', '_create_bulk_meta_tile'):
+        fn = ctx.fn(TILE + ':TileCreator.' + m)
+        stores = [x for x in fn.walk_all() if is_call(x, 'self.cache.store_tile', 'self.cache.store_tiles')]
+        filt = [x for x in fn.walk_all() if is_call(x, 'self.tile_mgr.apply_tile_filter')]
+        if not stores:
+            raise Undecided('%s: no store call' % m)
+        first_store = min(x.lineno for x in stores)
+        ok = bool(filt) and all(x.lineno < first_store for x in filt)
+        ctx.check(ok, 'TileCreator.%s:filter-before-store' % m, 'apply_tile_filter comes before the store', fn,
+                  fail='TileCreator.%s applies the tile filters after the tiles were stored (or not at all): stored and served tiles lack the '
+                       'filter on this path only' % m)
